@@ -143,6 +143,11 @@ pub fn build(root: &Path, fresh: bool, setup: &[Value]) -> Result<(), String> {
                         }
                     }
                 }
+                if let Some(t) = op.get("text").and_then(|v| v.as_str()) {
+                    use std::os::unix::fs::FileExt;
+                    ioerr("set_len", &p, f.set_len(t.len() as u64))?;
+                    ioerr("write", &p, f.write_all_at(t.as_bytes(), 0))?;
+                }
                 drop(f);
                 apply_common(&p, op, false)?;
             }
